@@ -128,8 +128,16 @@ def build_aero(case, surfaces=None, geom=None, setup=True, mode="auto", complex_
     if ground:
         names.append("height_agl")
         flow.setdefault("height_agl", 8000.0)
+    uov = case.get("units", {})  # the same SI value supplied in another unit (OpenMDAO converts it back)
     for n in names:
-        ivc.add_output(n, val=np.array(flow[n], float), units=FLOW_UNITS[n])
+        val = np.array(flow[n], float)
+        unit = FLOW_UNITS[n]
+        if n in uov:
+            from openmdao.utils.units import convert_units
+
+            val = convert_units(val, unit, uov[n])
+            unit = uov[n]
+        ivc.add_output(n, val=val, units=unit)
     prob.model.add_subsystem("fc", ivc, promotes=["*"])
     for s in surfaces:
         n = s["name"]
